@@ -2394,6 +2394,8 @@ DLLIMPORT int cfg_addlist(cfg_t *cfg, const char *name, unsigned int nvalues, ..
 		return CFG_FAIL;
 	}
 
+	/* appending to the defaults is ok, as with '+=' in a file */
+	opt->flags &= ~CFGF_RESET;
 	va_start(ap, nvalues);
 	result = cfg_addlist_internal(opt, nvalues, ap);
 	va_end(ap);
